@@ -95,6 +95,35 @@ func (m *mcpModel) accessAtom(pc pathCond) (string, bool) {
 			return "rtOn", pc.Val
 		}
 	case *ssa.BinOp:
+		// the role test written out: rank(effective) >= rank(required) (or its negation / mirror image)
+		if lc, lok := x.X.(*ssa.Call); lok {
+			if rc, rok := x.Y.(*ssa.Call); rok && lc.Call.StaticCallee() != nil && lc.Call.StaticCallee() == rc.Call.StaticCallee() && len(lc.Call.Args) == 1 && len(rc.Call.Args) == 1 {
+				isReq := func(v ssa.Value) bool {
+					ex, ok := v.(*ssa.Extract)
+					if !ok || ex.Index != 0 {
+						return false
+					}
+					call, ok := ex.Tuple.(*ssa.Call)
+					return ok && call.Call.StaticCallee() == m.roleTab.fn
+				}
+				reqY, reqX := isReq(rc.Call.Args[0]), isReq(lc.Call.Args[0])
+				switch {
+				case reqY && !reqX && x.Op == token.GEQ:
+					m.inlineRank = lc.Call.StaticCallee()
+					return "roleOK:inline", pc.Val
+				case reqY && !reqX && x.Op == token.LSS:
+					m.inlineRank = lc.Call.StaticCallee()
+					return "roleOK:inline", !pc.Val
+				case reqX && !reqY && x.Op == token.LEQ:
+					m.inlineRank = lc.Call.StaticCallee()
+					return "roleOK:inline", pc.Val
+				case reqX && !reqY && x.Op == token.GTR:
+					m.inlineRank = lc.Call.StaticCallee()
+					return "roleOK:inline", !pc.Val
+				}
+				return "roleOK-wrong-arg", pc.Val
+			}
+		}
 		if x.Op == token.EQL || x.Op == token.NEQ {
 			if cst, ok := x.Y.(*ssa.Const); ok && cst.Value != nil && cst.Value.ExactString() == `""` {
 				if m.isPrincipalValue(x.X, 0) {
@@ -169,10 +198,37 @@ func checkMCPAccess(c *Ctx, m *mcpModel, rule string) {
 	}
 	c.Floor(rule, "handler calls in dispatch", n, 25)
 	// handlers are called from nowhere else (outside other handlers)
+	// (a helper that is itself only called from handlers or the dispatch function is part of those handlers)
+	var onlyBehindDispatch func(f *ssa.Function, seen map[*ssa.Function]bool) bool
+	onlyBehindDispatch = func(f *ssa.Function, seen map[*ssa.Function]bool) bool {
+		for f.Parent() != nil {
+			f = f.Parent()
+		}
+		if f == p.Orig(fn) || m.handlers[f] {
+			return true
+		}
+		if seen[f] {
+			return true
+		}
+		seen[f] = true
+		if f.Object() == nil || f.Object().Exported() {
+			return false
+		}
+		sites := p.CallSitesOf(f)
+		if len(sites) == 0 {
+			return false
+		}
+		for _, cs := range sites {
+			if !onlyBehindDispatch(cs.Parent(), seen) {
+				return false
+			}
+		}
+		return true
+	}
 	for _, h := range sortedFuncs(m.handlers) {
 		for _, cs := range p.CallSitesOf(h) {
 			caller := cs.Parent()
-			if caller == fn || m.handlers[caller] {
+			if caller == fn || m.handlers[caller] || onlyBehindDispatch(caller, map[*ssa.Function]bool{}) {
 				continue
 			}
 			c.Fail(rule, FuncName(h)+":called only through dispatch", p.InstrPos(cs), "tool handler is also called from "+FuncName(caller)+", bypassing the access check")
@@ -224,6 +280,9 @@ func checkMCPAccess(c *Ctx, m *mcpModel, rule string) {
 			"access is granted on a path ("+strings.Join(desc, " ∧ ")+") that does not establish: "+strings.Join(missing, "; "))
 	}
 	c.Floor(rule, "grant paths of the access check", nNil, 1)
+	if m.inlineRank != nil {
+		checkRankFunction(c, m, rule, m.inlineRank)
+	}
 
 	// the role comparison: rank(effective) >= rank(required) with admin > operate > anything else
 	for _, g := range p.MethodsOf("mcp", "Server") {
@@ -413,18 +472,28 @@ func (m *mcpModel) appendedIsChecked(app *ssa.Call, accessCalls []ssa.CallInstru
 		switch x := arg.(type) {
 		case *ssa.UnOp:
 			if fa, ok := x.X.(*ssa.FieldAddr); ok {
-				if _, f, _ := fieldAddrName(fa); f == "Name" && elemBase(fa.X) == base {
+				if _, f, _ := fieldAddrName(fa); f == "Name" && sameElemBase(elemBase(fa.X), base) {
 					return true
 				}
 			}
 		case *ssa.Field:
 			st := x.X.Type().Underlying().(*types.Struct)
-			if st.Field(x.Field).Name() == "Name" && elemBase(x.X) == base {
+			if st.Field(x.Field).Name() == "Name" && sameElemBase(elemBase(x.X), base) {
 				return true
 			}
 		}
 	}
 	return false
+}
+
+// sameElemBase: the same cell, or two addresses of the same element (same slice value, same index value).
+func sameElemBase(a, b ssa.Value) bool {
+	if a == b {
+		return true
+	}
+	ia, ok1 := a.(*ssa.IndexAddr)
+	ib, ok2 := b.(*ssa.IndexAddr)
+	return ok1 && ok2 && ia.X == ib.X && ia.Index == ib.Index
 }
 
 // elemBase normalises "the ranged element": a load of a cell/index address, or the address itself.
